@@ -834,6 +834,16 @@ enum Mode {
     BlockMax,
     Random,
     Skew,
+    /// ten mid-frequency words (each in 15-90 % of the documents) with heavy-tailed term
+    /// frequencies: conjunctions of 4-8 term clauses still have many matches per segment and every
+    /// clause contributes a comparable, strongly varying share of the score
+    Dense,
+    /// short field (titles / tags): most bodies are 1-5 tokens with an occasional long one, a
+    /// small Zipf vocabulary, so the average field length is a small number with a fractional part
+    /// and the (length, tf) pairs of a posting block are few, tie massively and lie close in BM25
+    Short,
+    /// like `Short`, but 60-95 % of the documents have no body at all (average length < 1 token)
+    Sparse,
 }
 
 struct Corpus {
@@ -849,6 +859,9 @@ struct Corpus {
 
 const COMMON: [(u16, u32); 4] = [(0, 95), (1, 70), (2, 45), (3, 25)];
 const MID: [(u16, u32); 6] = [(10, 20), (11, 15), (12, 10), (13, 8), (14, 5), (15, 3)];
+/// vocabulary of the Short / Sparse corpora (Zipf-like weights)
+const SHORT_VOCAB: [u16; 10] = [0, 1, 2, 3, 10, 11, 12, 13, 14, 15];
+const SHORT_WEIGHTS: [u32; 10] = [40, 24, 14, 8, 5, 3, 2, 2, 1, 1];
 const RARE: [u16; 8] = [30, 31, 32, 33, 34, 35, 36, 37];
 const TITLE_WORDS: [u16; 5] = [200, 201, 202, 203, 204];
 const STRS: [&str; 12] = [
@@ -895,8 +908,26 @@ fn distinct_sizes(mut cuts: Vec<usize>, n: usize) -> Vec<usize> {
 }
 
 fn gen_corpus(rng: &mut Rng, quick: bool) -> Corpus {
-    let mode = *rng.pick(&[Mode::Ties, Mode::BlockMax, Mode::Random, Mode::Random, Mode::Skew, Mode::Skew]);
-    let size_class = rng.weighted(if quick { &[4, 5, 4, 3, 1] } else { &[3, 4, 3, 3, 2] });
+    let mode = *rng.pick(&[
+        Mode::Ties,
+        Mode::BlockMax,
+        Mode::Random,
+        Mode::Random,
+        Mode::Skew,
+        Mode::Skew,
+        Mode::Dense,
+        Mode::Dense,
+        Mode::Short,
+        Mode::Short,
+        Mode::Sparse,
+    ]);
+    let size_class = match mode {
+        // posting lists of the frequent words must span several full 128-document blocks
+        Mode::Short => rng.weighted(&[0, 2, 3, 5, 1]),
+        Mode::Sparse => rng.weighted(&[0, 0, 0, 1, 2]),
+        Mode::Dense => rng.weighted(&[1, 4, 3, 5, 1]),
+        _ => rng.weighted(if quick { &[4, 5, 4, 3, 1] } else { &[3, 4, 3, 3, 2] }),
+    };
     let n = match size_class {
         0 => rng.urange(1, 40),
         1 => rng.urange(100, 400),
@@ -904,7 +935,15 @@ fn gen_corpus(rng: &mut Rng, quick: bool) -> Corpus {
         3 => rng.urange(1000, 3000),
         _ => *rng.pick(&[4095usize, 4096, 4097, 4224, 5000, 6500, 8200, 8320]),
     };
-    let nseg = if n < 2 { 1 } else { rng.urange(1, 8).min(n) };
+    let nseg = if n < 2 {
+        1
+    } else if matches!(mode, Mode::Short | Mode::Sparse) && rng.bool() {
+        // one segment: the block-max metadata written at indexing time is evaluated under exactly
+        // the average field length it was computed with
+        1
+    } else {
+        rng.urange(1, 8).min(n)
+    };
     let cuts = if nseg >= 2 && rng.chance(1, 3) {
         // segments of (nearly) equal size
         let mut c: Vec<usize> = (1..nseg).map(|i| i * n / nseg).filter(|&c| c >= 1 && c < n).collect();
@@ -954,6 +993,23 @@ fn gen_corpus(rng: &mut Rng, quick: bool) -> Corpus {
     let hi_tf = rng.urange(3, 12);
     let hi_pos = rng.usize_below(128);
     let const_len = rng.urange(8, 20);
+    // Dense: presence probability (percent) of every COMMON / MID word, one "loud" word
+    let mut dense_p: Vec<(u16, u64)> = vec![];
+    for (w, _) in COMMON.iter() {
+        dense_p.push((*w, rng.range(30, 90)));
+    }
+    for (w, _) in MID.iter() {
+        dense_p.push((*w, rng.range(15, 70)));
+    }
+    let loud = dense_p[rng.usize_below(dense_p.len())].0;
+    // Short / Sparse: share of documents without body, of one-token bodies, of long bodies
+    let p_empty: u64 = match mode {
+        Mode::Sparse => *rng.pick(&[60u64, 75, 88, 95]),
+        _ => *rng.pick(&[0u64, 0, 10, 30]),
+    };
+    let p_single: u64 = *rng.pick(&[30u64, 50, 70, 85]);
+    let p_long: u64 = *rng.pick(&[3u64, 8, 15, 30]);
+    let long_max = *rng.pick(&[8usize, 12, 24, 40]);
     let mut docs = Vec::with_capacity(n);
     for i in 0..n {
         let mut d = MDoc::empty(i as u64 + 1);
@@ -993,6 +1049,61 @@ fn gen_corpus(rng: &mut Rng, quick: bool) -> Corpus {
                 let target = const_len + hi_tf * 2;
                 while body.len() < target {
                     body.push(100 + (rng.below(40) as u16));
+                }
+            }
+            Mode::Dense => {
+                for (w, p) in dense_p.iter() {
+                    if rng.chance(*p, 100) {
+                        let mut tf = 1;
+                        while tf < 9 && rng.chance(2, 5) {
+                            tf += 1;
+                        }
+                        if rng.chance(1, 6) {
+                            tf += rng.urange(2, 6);
+                        }
+                        if *w == loud && rng.chance(1, 4) {
+                            tf += rng.urange(5, 15);
+                        }
+                        for _ in 0..tf {
+                            body.push(*w);
+                        }
+                    }
+                }
+                let filler = match rng.weighted(&[5, 3]) {
+                    0 => rng.urange(0, 6),
+                    _ => rng.urange(6, 30),
+                };
+                for _ in 0..filler {
+                    body.push(100 + (rng.below(60) as u16));
+                }
+                rng.shuffle(&mut body);
+            }
+            Mode::Short | Mode::Sparse => {
+                if !rng.chance(p_empty, 100) {
+                    let len = if rng.chance(p_single, 100) {
+                        1
+                    } else if rng.chance(p_long, 100) {
+                        rng.urange(6, long_max)
+                    } else {
+                        rng.urange(2, 5)
+                    };
+                    let main = SHORT_VOCAB[rng.weighted(&SHORT_WEIGHTS)];
+                    let tf_main = match rng.weighted(&[2, 2, 1]) {
+                        0 => rng.urange(1, len),
+                        1 => (len * 7 + 9) / 10,
+                        _ => len,
+                    };
+                    for _ in 0..tf_main {
+                        body.push(main);
+                    }
+                    while body.len() < len {
+                        if rng.bool() {
+                            body.push(SHORT_VOCAB[rng.weighted(&SHORT_WEIGHTS)]);
+                        } else {
+                            body.push(100 + (rng.below(20) as u16));
+                        }
+                    }
+                    rng.shuffle(&mut body);
                 }
             }
             Mode::Random | Mode::Skew => {
@@ -1223,8 +1334,55 @@ fn tree(rng: &mut Rng, depth: usize) -> Q {
     }
 }
 
-fn gen_query(rng: &mut Rng) -> (Q, &'static str) {
-    match rng.weighted(&[5, 2, 6, 6, 2, 5]) {
+/// `n` distinct words of COMMON u MID. `dense`: uniformly (every word is frequent in a Dense
+/// corpus); otherwise the four COMMON words first, so that the conjunction keeps matches
+fn wide_words(rng: &mut Rng, n: usize, dense: bool) -> Vec<u16> {
+    let mut common: Vec<u16> = COMMON.iter().map(|x| x.0).collect();
+    let mut mid: Vec<u16> = MID.iter().map(|x| x.0).collect();
+    rng.shuffle(&mut common);
+    rng.shuffle(&mut mid);
+    let mut all: Vec<u16> = common.into_iter().chain(mid).collect();
+    if dense || rng.chance(1, 4) {
+        rng.shuffle(&mut all);
+    }
+    all.truncate(n);
+    // clause order is part of the input (the scorers are re-sorted by cost internally)
+    rng.shuffle(&mut all);
+    all
+}
+
+/// conjunction of 4-8 term clauses, all on fields with term frequencies (block-max intersection
+/// with three and more secondaries); some clauses boosted, so that also the clauses on the most
+/// frequent words weigh in; written with MUST or as "n of n SHOULD clauses must match"
+fn wide_intersection(rng: &mut Rng, dense: bool) -> Q {
+    let n = *rng.pick(&[4usize, 4, 4, 5, 5, 6, 7, 8]);
+    let boosted = rng.chance(1, 2);
+    let mut ts: Vec<Q> = wide_words(rng, n, dense)
+        .into_iter()
+        .map(|w| {
+            let t = Q::term(TF::Body, w);
+            if boosted && rng.chance(1, 3) {
+                Q::Boost(Box::new(t), *rng.pick(&[0.5f32, 2.0, 3.7, 10.0]))
+            } else {
+                t
+            }
+        })
+        .collect();
+    if rng.chance(1, 6) {
+        ts.push(Q::term(TF::Title, *rng.pick(&TITLE_WORDS)));
+    }
+    if rng.chance(1, 5) {
+        let m = ts.len();
+        Q::MinShould(ts, m)
+    } else {
+        Q::Bool(ts.into_iter().map(|t| (Occur::Must, t)).collect())
+    }
+}
+
+fn gen_query(rng: &mut Rng, mode: Mode) -> (Q, &'static str) {
+    let dense = mode == Mode::Dense;
+    match rng.weighted(&[5, 2, 6, 6, 2, 5, if dense { 14 } else { 3 }]) {
+        6 => (wide_intersection(rng, dense), "wide-term-intersection"),
         0 => (body_term(rng), "term"),
         1 => {
             let q = match rng.below(4) {
@@ -1624,6 +1782,24 @@ fn case(case: u64, rng: &mut Rng, rep: &mut Report, quick: bool) {
         "max_docs": searcher.segment_readers().iter().map(|s| s.max_doc()).collect::<Vec<_>>(),
     });
     rep.observe("corpus_mode", format!("{:?}", corpus.mode));
+    for seg in searcher.segment_readers() {
+        if let Ok(inv) = seg.inverted_index(sch.body) {
+            let avg = inv.total_num_tokens() as f64 / seg.max_doc().max(1) as f64;
+            let class = if avg < 1.0 {
+                "<1"
+            } else if avg < 3.0 {
+                "1..3"
+            } else if avg < 8.0 {
+                "3..8"
+            } else {
+                ">=8"
+            };
+            rep.observe(
+                "avg_body_len_of_a_segment",
+                format!("{class}{}", if nseg == 1 { " (only segment)" } else { "" }),
+            );
+        }
+    }
     rep.observe("segments", nseg.to_string());
     rep.observe("executor", exec.clone());
     rep.observe("deletes", corpus.del_mode);
@@ -1657,7 +1833,7 @@ fn case(case: u64, rng: &mut Rng, rep: &mut Report, quick: bool) {
     }
     let nq = 8;
     for qi in 0..nq {
-        let (q, qkind) = gen_query(rng);
+        let (q, qkind) = gen_query(rng, corpus.mode);
         let qdesc = q.describe();
         let query = q.to_query(&sch);
         let exact_q = is_exact(&q);
@@ -1700,13 +1876,17 @@ fn case(case: u64, rng: &mut Rng, rep: &mut Report, quick: bool) {
                 }
             }
         }
+        // queries made of term clauses only (possibly boosted): the ones that can take a
+        // block-max pruning path
+        let is_term = |c: &Q| match c {
+            Q::Term { .. } => true,
+            Q::Boost(inner, _) => matches!(&**inner, Q::Term { .. }),
+            _ => false,
+        };
         let pruning_terms: Option<Vec<(TF, u16)>> = match &q {
-            Q::Term { f, w, .. } => Some(vec![(*f, *w)]),
-            Q::Boost(inner, _) => match &**inner {
-                Q::Term { f, w, .. } => Some(vec![(*f, *w)]),
-                _ => None,
-            },
-            Q::Bool(cs) if cs.iter().all(|(_, c)| matches!(c, Q::Term { .. })) => Some(terms.clone()),
+            c if is_term(c) => Some(terms.clone()),
+            Q::Bool(cs) if cs.iter().all(|(_, c)| is_term(c)) => Some(terms.clone()),
+            Q::MinShould(cs, _) if cs.iter().all(is_term) => Some(terms.clone()),
             _ => None,
         };
         let blk = if max_df_seg > 4096 {
@@ -1718,6 +1898,19 @@ fn case(case: u64, rng: &mut Rng, rep: &mut Report, quick: bool) {
         };
         rep.observe("longest_posting_list_in_a_segment", blk);
         rep.observe("query_kind", qkind);
+        if let (Some(pt), Q::Bool(_) | Q::MinShould(..)) = (&pruning_terms, &q) {
+            let all_must = match &q {
+                Q::Bool(cs) => cs.iter().all(|(o, _)| *o == Occur::Must),
+                Q::MinShould(cs, need) => *need == cs.len(),
+                _ => false,
+            };
+            if all_must {
+                rep.observe("term_conjunction_width", pt.len().min(9).to_string());
+                if pt.len() >= 4 && m >= 2 {
+                    rep.count("conjunctions_of_4_or_more_term_clauses_with_matches", 1);
+                }
+            }
+        }
         rep.observe("key_comparison", if exact_q { "exact" } else { "float-sum-tolerance" });
         // matches per segment (for the attribution of the merge defect, see below)
         let mut per_seg: BTreeMap<u32, usize> = BTreeMap::new();
@@ -1755,6 +1948,17 @@ fn case(case: u64, rng: &mut Rng, rep: &mut Report, quick: bool) {
                 _ => m + rng.urange(0, 3),
             };
             plan.push((kind, k, o, false));
+        }
+        // queries that can take a block-max path over posting lists with full blocks: more
+        // order_by_score searches with a K far below the number of matches (the threshold rises
+        // early and whole blocks / candidates have to be skipped on the stored bounds)
+        if pruning_terms.is_some() && max_df_seg > 128 && m >= 3 {
+            for _ in 0..3 {
+                let k = (*rng.pick(&[1usize, 2, 3, 5, 10, 20, 50])).min(m - 1);
+                let o = *rng.pick(&[0usize, 0, 0, 1, 3]);
+                plan.push((SortKind::Score, k, o, false));
+                rep.count("extra_small_K_score_searches_on_block_max_paths", 1);
+            }
         }
         // targeted (K,O): the cut O+K falls inside a group of equal keys that lies in the third or
         // a later segment (resolved below, once the full order for the sort kind is known)
@@ -2017,7 +2221,7 @@ fn case(case: u64, rng: &mut Rng, rep: &mut Report, quick: bool) {
 fn main() {
     let ctx = Ctx::from_env("C06", "exploration");
     let quick = ctx.quick();
-    let n = ctx.scale(250, 3000) as u64;
+    let n = ctx.scale(450, 5000) as u64;
     let rep = run_cases(&ctx, "topk", n, |c, rng, rep| case(c, rng, rep, quick));
     simple_finish(
         &ctx,
